@@ -3,11 +3,13 @@
 # against a fresh worktree of /repo HEAD and reports whether the property's
 # check catches it. Worktrees and their build output are removed again.
 budget=${1:-30}; shift
-. /verif/env.sh
-cd /verif && go build -o bin/verif ./cmd/verif || exit 2
-ids=${*:-$(ls /verif/seeded)}
+here=$(cd "$(dirname "$0")/.." && pwd)
+. "$here/env.sh"
+export VERIF_ROOT="$here"
+cd "$here" && go build -o bin/verif ./cmd/verif || exit 2
+ids=${*:-$(ls "$here/seeded")}
 for id in $ids; do
-  d=/verif/seeded/$id
+  d=$here/seeded/$id
   prop=$(python3 -c "import json;print(json.load(open('$d/meta.json'))['property'])")
   if python3 -c "import json,sys;sys.exit(0 if json.load(open('$d/meta.json')).get('void_on_current_tree') else 1)"; then echo "VOID    $id ($prop): the seeded line is part of a later repair, see meta.json"; continue; fi
   ev=/tmp/evalseed-$id
